@@ -163,9 +163,10 @@ func (c *wkCase) peek() (stop chan struct{}, done chan struct{}, wg *sync.WaitGr
 		limit = time.Millisecond // the case is already condemned: do not spend more time on it
 	}
 	for t0 := time.Now(); ; {
-		if c.w.mu.TryLock() {
-			stop, done, wg = c.w.stop, c.w.done, c.w.wg
-			c.w.mu.Unlock()
+		// Worker: mu is its only sync.Mutex, wg its only *sync.WaitGroup, stop and done its first and second chan struct{}
+		if mu := fld[sync.Mutex](c.w, "mu"); mu.TryLock() {
+			stop, done, wg = *fld[chan struct{}](c.w, "stop", 0), *fld[chan struct{}](c.w, "done", 1), *fld[*sync.WaitGroup](c.w, "wg")
+			mu.Unlock()
 			return stop, done, wg, true
 		}
 		if time.Since(t0) > limit {
